@@ -5009,10 +5009,11 @@ class Device(utils.CompositeEventEmitter):
             def _(error_code: int):
                 pending_role_change.set_exception(hci.HCI_Error(error_code))
 
+            pending = connection.cancel_on_disconnection(pending_role_change)
             await self.send_async_command(
                 hci.HCI_Switch_Role_Command(bd_addr=connection.peer_address, role=role)
             )
-            await connection.cancel_on_disconnection(pending_role_change)
+            await pending
 
     # [Classic only]
     async def request_remote_name(self, remote: hci.Address | Connection) -> str:
@@ -5034,6 +5035,7 @@ class Device(utils.CompositeEventEmitter):
                 if address == peer_address:
                     pending_name.set_exception(hci.HCI_Error(error_code))
 
+            pending = utils.cancel_on_event(self, Device.EVENT_FLUSH, pending_name)
             await self.send_async_command(
                 hci.HCI_Remote_Name_Request_Command(
                     bd_addr=peer_address,
@@ -5044,7 +5046,7 @@ class Device(utils.CompositeEventEmitter):
             )
 
             # Wait for the result
-            return await utils.cancel_on_event(self, Device.EVENT_FLUSH, pending_name)
+            return await pending
 
     # [LE only]
     @utils.experimental('Only for testing.')
@@ -5320,12 +5322,13 @@ class Device(utils.CompositeEventEmitter):
 
             watcher.on(self.host, 'le_remote_features', on_le_remote_features)
             watcher.on(self.host, 'le_remote_features_failure', on_failure)
+            pending = connection.cancel_on_disconnection(read_feature_future)
             await self.send_async_command(
                 hci.HCI_LE_Read_Remote_Features_Command(
                     connection_handle=connection.handle
                 )
             )
-            return await read_feature_future
+            return await pending
 
     async def get_remote_classic_features(
         self, connection: Connection
